@@ -872,6 +872,50 @@ pub mod spec {
             && (1 < short@.len() && j < short@.len() ==> !pure_flag(short@[j], fl, ar))
             && #[trigger] cluster_items(new, r, base, short@, short, fl, ar, os, j)
     }
+
+    // ---- the three lists of `--help` (src/meta_help.rs HelpItemsIter)
+    /// C12: the list an item belongs to: flags, arguments and `anywhere` items under options; commands under commands;
+    /// positionals and plain `any` items under positionals; decorations carry the list of the item they decorate
+    pub open spec fn section_of(h: HelpItem) -> HiTy {
+        match h {
+            HelpItem::GroupStart { ty, .. } | HelpItem::DecorSuffix { ty, .. } | HelpItem::GroupEnd { ty } | HelpItem::AnywhereStart { ty, .. } | HelpItem::AnywhereStop { ty } => ty,
+            HelpItem::Any { anywhere, .. } => if anywhere { HiTy::Flag } else { HiTy::Positional },
+            HelpItem::Positional { .. } => HiTy::Positional,
+            HelpItem::Command { .. } => HiTy::Command,
+            HelpItem::Flag { .. } | HelpItem::Argument { .. } => HiTy::Flag,
+        }
+    }
+    pub open spec fn described(h: HelpItem) -> bool {
+        match h {
+            HelpItem::Positional { help, .. } | HelpItem::Command { help, .. } | HelpItem::Flag { help, .. } | HelpItem::Any { help, .. } | HelpItem::Argument { help, .. } => help is Some,
+            HelpItem::GroupStart { .. } | HelpItem::DecorSuffix { .. } => true,
+            HelpItem::GroupEnd { .. } | HelpItem::AnywhereStart { .. } | HelpItem::AnywhereStop { .. } => false,
+        }
+    }
+    pub open spec fn is_bracket(h: HelpItem) -> bool { h is AnywhereStart || h is GroupStart || h is GroupEnd || h is AnywhereStop }
+    /// decoration block the entry at index k is in (determined by the brackets before it)
+    pub open spec fn block_at(items: Seq<HelpItem>, k: int) -> ItemBlock
+        decreases k,
+    {
+        if k <= 0 || k > items.len() { ItemBlock::No } else {
+            match items[k - 1] {
+                HelpItem::AnywhereStart { ty, .. } => ItemBlock::Anywhere(ty),
+                HelpItem::GroupStart { ty, .. } => ItemBlock::Decor(ty),
+                HelpItem::GroupEnd { .. } | HelpItem::AnywhereStop { .. } => ItemBlock::No,
+                _ => block_at(items, k - 1),
+            }
+        }
+    }
+    /// entry k is shown in the list `target`
+    pub open spec fn listed_under(items: Seq<HelpItem>, target: HiTy, k: int) -> bool {
+        if is_bracket(items[k]) { section_of(items[k]) == target } else {
+            match block_at(items, k) {
+                ItemBlock::No => section_of(items[k]) == target,
+                ItemBlock::Decor(t) => t == target,
+                ItemBlock::Anywhere(t) => t == target && described(items[k]),
+            }
+        }
+    }
 }
 
 pub mod lemmas {
@@ -1074,10 +1118,17 @@ pub mod lemmas {
         ensures <ItemState as PartialEqSpec>::obeys_eq_spec(), #[trigger] a.eq_spec(&b) == (a == b),
     {}
 
+    /// A-derive-eq: `#[derive(PartialEq, Eq)]` on HiTy is structural equality (T6)
+    #[verifier::external_body]
+    pub broadcast proof fn axiom_hity_eq(a: HiTy, b: HiTy)
+        ensures <HiTy as PartialEqSpec>::obeys_eq_spec(), #[trigger] a.eq_spec(&b) == (a == b),
+    {}
+
     pub broadcast group ledger {
         lemma_count_update,
         lemma_count_witness,
         axiom_item_state_eq,
+        axiom_hity_eq,
         lemma_strip_push,
     }
 
@@ -2610,6 +2661,76 @@ verif_it:
 //@@ ret r
 //@@ spec
         ensures r == help_item_of(item), is_leaf(r), // #name_metavar_help_and_env_are_the_items
+//@@ end
+
+// ---- the three lists of `--help` (C12): every entry goes to exactly the list of its kind
+//@@ type src/meta_help.rs | enum ItemBlock
+//@@ unit meta_help.ItemBlock tags=
+//@@ end
+
+//@@ type src/meta_help.rs | struct HelpItemsIter
+//@@ unit meta_help.HelpItemsIter tags=
+//@@ end
+
+//@@ fn src/meta_help.rs | impl HelpItem | fn has_help
+//@@ unit meta_help.HelpItem.has_help tags=C12
+//@@ ret r
+//@@ spec
+        ensures r == described(*self), // #described_iff_help_text_present
+//@@ end
+
+//@@ fn src/meta_help.rs | impl HelpItem | fn ty
+//@@ unit meta_help.HelpItem.ty tags=C12
+//@@ ret r
+//@@ spec
+        ensures r == section_of(*self), // #flags_arguments_under_options_commands_under_commands_positionals_under_positionals
+//@@ end
+
+//@@ fn src/meta_help.rs | impl Iterator for HelpItemsIter | fn next
+//@@ unit meta_help.HelpItemsIter.next tags=C12,C04 inherent loops=1
+//@@ ret r
+//@@ spec
+        requires
+            old(self).cur <= old(self).items@.len(),
+            old(self).block == block_at(old(self).items@, old(self).cur as int),
+        ensures
+            final(self).items == old(self).items && final(self).target == old(self).target, // #frame
+            final(self).cur <= final(self).items@.len() && final(self).block == block_at(final(self).items@, final(self).cur as int), // #block_tracks_the_brackets_passed
+            match r {
+                Some(item) => {
+                    &&& old(self).cur < final(self).cur && *item == old(self).items@[final(self).cur - 1] // #yields_entries_of_the_list
+                    &&& listed_under(old(self).items@, old(self).target, final(self).cur - 1) // #only_entries_of_the_requested_list
+                    &&& forall|j: int| old(self).cur <= j < final(self).cur - 1 ==> !listed_under(old(self).items@, old(self).target, j) // #in_order_skipping_only_entries_of_other_lists
+                },
+                None => forall|j: int| old(self).cur <= j < old(self).items@.len() ==> !listed_under(old(self).items@, old(self).target, j), // #none_of_the_list_left
+            },
+//@@ loop 1
+            invariant
+                self.items == old(self).items && self.target == old(self).target,
+                old(self).cur <= self.cur <= self.items@.len(),
+                self.block == block_at(self.items@, self.cur as int),
+                forall|j: int| old(self).cur <= j < self.cur ==> !listed_under(self.items@, self.target, j),
+            decreases self.items@.len() - self.cur,
+//@@ loopbody 1
+proof { axiom_hity_eq(self.target, self.target); }
+//@@ insert before 1 `self.cur += 1;`
+proof { assert(self.cur < self.items@.len()); assert(*item == self.items@[self.cur as int]); assert(self.items@.len() == self.items.len()); }
+let ghost b0 = self.block;
+//@@ insert before 1 `if keep {`
+proof {
+    let k = self.cur - 1;
+    assert(b0 == block_at(self.items@, k));
+    assert(self.block == block_at(self.items@, k + 1));
+    assert(*item == self.items@[k]);
+    if is_bracket(*item) { assert(keep == (section_of(*item) == self.target)); } else {
+        match b0 {
+            ItemBlock::No => { assert(keep == (section_of(*item) == self.target)); }
+            ItemBlock::Decor(t) => { assert(keep == (t == self.target)); }
+            ItemBlock::Anywhere(t) => { assert(keep == (t == self.target && described(*item))); }
+        }
+    }
+    assert(keep == listed_under(self.items@, self.target, k));
+}
 //@@ end
 
 impl Meta {
